@@ -563,7 +563,91 @@ func svClosePending(a []string) string {
 	return "ok"
 }
 
+// sv.bigreply: a method whose result is a string of a legal size whose message is larger than a message may be (the
+// four bytes of the length push it over): the method runs once and the call returns — with an error, the answer cannot be
+// delivered — and the calls of another client to the same object are answered as ever.
+func svBigReply(a []string) string {
+	log.SetOutput(ioutil.Discard)
+	l := &auListener{ch: make(chan qnet.Stream), closed: make(chan struct{})}
+	srv, err := bus.StandAloneServer(l, bus.Yes{}, bus.PrivateNamespace())
+	if err != nil {
+		return "setup-error:" + err.Error()
+	}
+	defer func() {
+		done := make(chan struct{})
+		go func() { srv.Terminate(); close(done) }()
+		select {
+		case <-done:
+		case <-time.After(3 * time.Second):
+		}
+	}()
+	impl := &abandonImpl{seen: map[string]int{}, entered: make(chan struct{}), gate: make(chan struct{})}
+	if _, err := srv.NewService("PingPong", pong.PingPongObject(impl)); err != nil {
+		return "setup-error:" + err.Error()
+	}
+	connect := func() (qnet.EndPoint, bus.Client, error) {
+		x, y := gonet.Pipe()
+		l.ch <- qnet.ConnStream(y)
+		ep := qnet.NewEndPoint(qnet.ConnStream(x))
+		if err := bus.AuthenticateUser(ep, "", ""); err != nil {
+			return nil, nil, err
+		}
+		return ep, bus.NewClient(bus.NewContext(ep)), nil
+	}
+	epA, clA, err := connect()
+	if err != nil {
+		return "setup-error:" + err.Error()
+	}
+	defer epA.Close()
+	epB, clB, err := connect()
+	if err != nil {
+		return "setup-error:" + err.Error()
+	}
+	defer epB.Close()
+	meta, err := bus.GetMetaObject(clB, 1, 1)
+	if err != nil {
+		return "setup-error:" + err.Error()
+	}
+	hello, _, err := meta.MethodID("hello", "(s)")
+	if err != nil {
+		return "setup-error:" + err.Error()
+	}
+	// "echo:" + arg is a string of MaxStringSize-3 bytes: legal; its message has MaxPayloadSize+1 bytes
+	arg := strings.Repeat("x", int(qnet.MaxPayloadSize)-8)
+	out := make(chan error, 1)
+	go func() { _, err := clA.Call(nil, 1, 1, hello, svString(arg)); out <- err }()
+	select {
+	case err := <-out:
+		if err == nil {
+			return "fail:a result larger than a message may be is delivered"
+		}
+	case <-time.After(8 * time.Second):
+		impl.mu.Lock()
+		n := impl.seen[arg]
+		impl.mu.Unlock()
+		return fmt.Sprintf("fail:the method ran %d times and the call has no outcome", n)
+	}
+	impl.mu.Lock()
+	n := impl.seen[arg]
+	impl.mu.Unlock()
+	if n != 1 {
+		return fmt.Sprintf("fail:the method ran %d times", n)
+	}
+	p, err := clB.Call(nil, 1, 1, hello, svString("after"))
+	if err != nil || len(p) < 4 || string(p[4:]) != "echo:after" {
+		return fmt.Sprintf("fail:the call of another client after it: %v", err)
+	}
+	return "ok"
+}
+
 func init() {
+	executors["sv.bigreply"] = func(a []string) string {
+		r := svBigReply(a)
+		if r != "ok" {
+			lastFailDetail = r
+		}
+		return r
+	}
 	executors["sv.closepending"] = func(a []string) string {
 		r := svClosePending(a)
 		if r != "ok" {
@@ -656,6 +740,11 @@ func runC04(r *Rand, tier string, o *Out) {
 		}
 		o.Count("scenario:caller-leaves-in-the-middle")
 	}
+	// a result that does not fit into a message
+	if out := o.Do("P", "sv.bigreply", true); out != "ok" {
+		o.Fail("a call whose result does not fit into a message: "+strings.SplitN(strings.TrimPrefix(out, "fail:"), ":", 2)[0], "sv.bigreply => "+out)
+	}
+	o.Count("scenario:result-larger-than-a-message")
 	// a caller that closes its own end while its calls are in flight: each of them returns once
 	for _, n := range []int{1, 3, 9} {
 		op := fmt.Sprintf("sv.closepending %d", n)
